@@ -1,19 +1,24 @@
 ---------------------------- MODULE MCJsonRpcSim ----------------------------
 (* Simulation instance of JsonRpc: whole behaviours (the labels of the actions taken) are printed when the
    system is settled, and replayed against the real conn -- the harness is the environment (callers'
-   contexts, the peer) and steers the real goroutines through the hook points.                     *)
+   contexts, the peer) and steers the real goroutines through the hook points.  The id vocabularies of the
+   peer (StrayIdSeq, PeerCallIdSeq: typed ids) are printed with every behaviour: a "stray" / "pcall" label
+   names its id by index, and the harness puts exactly that id, with that JSON type, on the wire.        *)
 EXTENDS JsonRpc
-VARIABLES hist, cbudget
+VARIABLES hist, cbudget, sbudget
 \* Cancel is enabled almost everywhere, so a uniform random walk would cancel every call early; each
-\* behaviour draws the number of cancellations it may use (0..NC) with its initial state.
-SimInit == Init /\ hist = <<>> /\ cbudget \in 0..NC
+\* behaviour draws the number of cancellations (0..NC) and stray responses (0..MaxStray) it may use with its
+\* initial state.
+SimInit == Init /\ hist = <<>> /\ cbudget \in 0..NC /\ sbudget \in 0..MaxStray
 SimNext == \E l \in Labels : /\ Do(l)
                              /\ hist' = Append(hist, l)
                              /\ IF l.a = "cancel" THEN cbudget > 0 /\ cbudget' = cbudget - 1 ELSE cbudget' = cbudget
+                             /\ IF l.a = "stray" THEN sbudget > 0 /\ sbudget' = sbudget - 1 ELSE sbudget' = sbudget
 \* nothing is in progress: every call has returned or waits for a response the peer has not sent
 Settled == /\ \A c \in Callers : pc[c] = "done" \/ (pc[c] = "wait" /\ c \notin replied /\ ~cancelled[c])
            /\ \A n \in Notifiers : pc[n] = "done"
            /\ rd.pc = "read" /\ inq = <<>> /\ mu = None
 ResultSeq == [c \in Callers |-> result[c]]
-PrintHist == Settled => PrintT(<<"HIST", ToJson([hist |-> hist, result |-> ResultSeq, nc |-> NC, nn |-> NN])>>)
+PrintHist == Settled => PrintT(<<"HIST", ToJson([hist |-> hist, result |-> ResultSeq, nc |-> NC, nn |-> NN,
+                                                  strayIds |-> StrayIdSeq, pcallIds |-> PeerCallIdSeq])>>)
 =============================================================================
